@@ -93,6 +93,16 @@ CHECKS = {
          "All histories of length <= 5 (quick) / <= 6 (thorough) over {New(i), Set(i,k,v)} with 3 keys (one a built-in helper's name) and 3 values (incl. nil) from 8 kinds of root are executed on fresh real contexts without state merging and compared with the model after the last operation (prefixes are histories themselves); random histories of length 200 on up to 8 contexts are compared after every operation.",
          "Trusted: the 15-line reference model; func pointer identity to recognise the built-in helper.",
          "DESIGN.md §5 C10"),
+ "C19": ("exploration",
+         "runtime monitor: exported helper functions called directly and through templates over exhaustive small ranges and int extremes; sequences compared with overflow-checked expectations, termination decided by a Next() call budget; groupBy judged by partition laws and by agreement of the two shipped implementations",
+         "Every (a, b, n) in [-8, 8] and at the int extremes for range/between/until, every length 0-40 x group count -2..12 x 7 container/element types for both groupBy implementations, and len over strings/slices/arrays/maps/pointers are executed; results are compared with arithmetic expectations and partition laws. Exhaustive over the stated ranges; larger values sampled.",
+         "Trusted: overflow-checked expectation code (20 lines); a sequence ends at the first nil from Next().",
+         "DESIGN.md §5 C19"),
+ "C20": ("exploration",
+         "runtime predicate monitors over exhaustive short strings and random strings / JSON values, on the exported helpers and on plush.Render output",
+         "truncate is checked against the bound/prefix/no-split predicates for all strings of length <= 5 over a 4-symbol alphabet x sizes x trails and for random strings with multi-byte, combining and invalid bytes; htmlEscape/jsEscape/raw for all strings of length <= 3 over a 16-symbol hostile alphabet plus random byte strings; toJSON for generated JSON values (validity, round trip, no raw < > &).",
+         "Trusted: encoding/json as the JSON oracle; the backslash-pairing scanner for jsEscape; rune counting by []rune conversion.",
+         "DESIGN.md §5 C20"),
 }
 NOT_YET = "check not built yet in this round (see DESIGN.md §5 for the planned monitor)"
 
